@@ -346,13 +346,43 @@ func execToma(r *RNG, c *Case) {
 func topaGen(r *RNG, id string, windows bool) *Case {
 	c := NewCase("TOPA", id)
 	sc := genSam(r, true, r.PickInt([]int{0, 2, 5}))
+	// two reads in a row whose reference rows are equally wide but gapped at different places (one insertion of the
+	// same length each): anything a worker keeps from the first pair and keys by width is wrong for the second
+	L := len(sc.ref)
+	twinAt := [2]int{-1, -1}
+	if L >= 12 && r.Chance(1, 4) {
+		k := r.Range(1, 3)
+		a := r.Range(1, L/2-1)
+		b := r.Range(L/2+1, L-1)
+		for i, at := range []int{a, b} {
+			tmpl := mutateSeq(r, sc.ref, symACGT, 1, 10, false)
+			seq := tmpl[:at] + randSeq(r, k, symACGT, false) + tmpl[at:]
+			sc.recs = append(sc.recs, samRec{name: fmt.Sprintf("tw%d", i), flag: 0, pos: 1, cigar: fmt.Sprintf("%dM%dI%dM", at, k, L-at), seq: seq})
+		}
+		twinAt = [2]int{a, b}
+		sc.tags["twin-insertions"] = true
+	}
 	if r.Chance(1, 8) {
 		sc.ref = mutateSeq(r, sc.ref, "NRY", 1, 15, true) // the reference file may carry IUPAC codes and lower case
 	}
 	sc.fill(c)
 	start, end := -1, -1
-	if windows || r.Chance(1, 4) {
+	if windows || r.Chance(1, 4) || (twinAt[0] > 0 && r.Bool()) {
 		start, end = randWindow(r, len(sc.ref))
+		if twinAt[0] > 0 && r.Chance(2, 3) { // a bound between the two insertion sites
+			mid := r.Range(twinAt[0]+1, twinAt[1])
+			if r.Bool() {
+				start, end = mid, -1
+				if r.Bool() {
+					end = r.Range(mid, L)
+				}
+			} else {
+				start, end = -1, mid
+				if r.Bool() {
+					start = r.Range(1, mid)
+				}
+			}
+		}
 		c.Tag("window")
 	}
 	c.SetInt("start", start).SetInt("end", end)
